@@ -444,10 +444,81 @@ def C16(V, tier):
     _focused(V, tier, "C16", progs, checks=("result", "link"), matrix=matrix, perturb_us=0)
 
 
+def iteration_model(V, wd, tier):
+    """sys/Iteration.tla: the loop protocol (lock generation, barrier, state feedback)."""
+    for cfg in (["Iteration_quick"] if tier == "quick" else ["Iteration_quick", "Iteration_thorough"]):
+        r = tlc_check(f"{SPEC}/sys/Iteration.tla", f"{SPEC}/mc/{cfg}.cfg", wd, cfg, workers=8, timeout=3000)
+        if not r["ok"]:
+            raise ToolError(f"model check {cfg}: {r['invariant_violated']} fails on the MODEL")
+        require_coverage(r, ["HeadData", "HeadRestart", "BodyRecv", "LeaderDecide", "HeadState", "HeadBarrier"], cfg)
+        V.add_model(r, cfg)
+    # the adversarial variant (no wait_for_update) must show the stale read: its schedule is the gate
+    r = tlc_check(f"{SPEC}/sys/Iteration.tla", f"{SPEC}/mc/Iteration_nowait.cfg", wd, "nowait", workers=4, coverage=False)
+    V.coverage["nowait_variant_reads_stale_state"] = r["invariant_violated"] == "StateReadOK"
+
+
 def C10(V, tier):
+    from common import read_trace, split_trace_files, validate_parallel
+    import project
+    iteration_model(V, workdir("C10m"), tier)
     rng = random.Random(seed() + 10)
-    _focused(V, tier, "C10", gen.loop_programs(rng, 50 if tier == "quick" else 500), checks=("result", "boundary"),
-             perturb_us=300)
+    q = tier == "quick"
+    # D: results of loop programs (final state, iterate output) against the sequential loop semantics
+    progs = gen.loop_programs(rng, 40 if q else 400)
+    _focused(V, tier, "C10", progs, checks=("result", "boundary"), perturb_us=300)
+    # T: per-round state reads, lock discipline, leader decisions, on replay loops with state-reading
+    # bodies, multi-host layouts, with the state feedback of one host held back (schedule from the
+    # counterexample of the no-wait variant of the model)
+    wd = workdir("C10t")
+    tprogs = []
+    i = 0
+    cands = gen.loop_programs(rng, 400, nested=False)
+    for p in cands:
+        loop = next(n for n in p["prog"]["nodes"] if n["id"] == "L")
+        if loop["op"] != "replay" or not any(n["op"] == "map_st" for n in loop["body"]):
+            continue
+        if any(n["op"] in ("gb_fold",) for n in loop["body"]):
+            continue
+        import copy
+        p = copy.deepcopy(p)
+        # the race needs a network hop between the head and the operator that reads the state: make
+        # sure a shuffle precedes the first state-reading map of the body, and enough elements
+        loop = next(n for n in p["prog"]["nodes"] if n["id"] == "L")
+        body = loop["body"]
+        first_st = next(k for k, n in enumerate(body) if n["op"] == "map_st")
+        if not any(n["op"] == "shuffle" for n in body[:first_st]):
+            first = body[0]
+            body.insert(0, {"id": "L_pre", "op": "shuffle", "in": ["$in"]})
+            first["in"] = ["L_pre"]
+        for n in p["prog"]["nodes"]:
+            if n["op"] == "src" and n.get("kind") == "par_range":
+                n["hi"] = n["lo"] + rng.choice([12, 24, 40])
+        p["name"] = f"it{i}"
+        p["prop"] = "C10"
+        p["gate"] = {"kind": "delay_state", "host": rng.choice([0, 1]), "ms": rng.choice([5, 20, 40])}
+        tprogs.append(p)
+        i += 1
+        if i >= (24 if q else 200):
+            break
+    matrix = [({"mode": "remote", "hosts": [1, 1]}, "default"), ({"mode": "remote", "hosts": [2, 1]}, "single"),
+              ({"mode": "remote", "hosts": [2, 2]}, "fixed:2"), ({"mode": "local", "par": 3}, "default")]
+    results, traces, jobs_by_id = jobsuite.run_suite(V, wd, tprogs, matrix, "C10", checks=("result",),
+                                                     perturb_us=150)
+    progs_by_job = {jid: j["prog"] for jid, j in jobs_by_id.items()}
+    recs = []
+    for t in traces:
+        recs += list(project.iter_records(read_trace(t), results, progs_by_job))
+    files = split_trace_files(recs, wd, "iter", max_events=6000)
+    viols, consumed, states, _ = validate_parallel("IterTrace", files, wd)
+    for v in viols:
+        V.add_violation(v, replay=jobs_by_id.get(v.get("job")))
+    V.coverage["states"] += states
+    V.coverage["transitions"] += states
+    V.coverage["state_reads_checked"] = sum(1 for r in recs if r["ev"] == "read")
+    V.coverage["lock_events_checked"] = sum(1 for r in recs if r["ev"] in ("lock", "unlock", "wait_ret", "set_state"))
+    V.coverage["leader_decisions_checked"] = sum(1 for r in recs if r["ev"] == "leader")
+    if V.coverage["state_reads_checked"] < 50:
+        raise ToolError("vacuous: fewer than 50 state reads observed")
 
 
 def sideinput_model(V, wd, tier):
